@@ -31,7 +31,7 @@ func (propC10) Runs(tier string) int {
 
 var c10EntryPoints = []string{"render", "render_frag", "render_frag_nofile", "render_group", "render_group_nofile", "render_body"}
 var c10WriterPlans = []*WriterPlan{nil, {FailAt: 1, Kind: "err"}, {FailAt: 2, Kind: "err"}, {FailAt: 1, Kind: "short"}, {FailAt: 2, Kind: "short"}, {FailAt: 1, Kind: "errfull"}, {Reenter: true}, {Kind: "bytesbuffer"}}
-var c10Targets = []string{"fresh", "existing", "existing-crlf", "isdir", "noparent", "parentfile", "symlink-dangling", "symlink-file"}
+var c10Targets = []string{"fresh", "existing", "existing-crlf", "isdir", "isdir-empty", "noparent", "parentfile", "symlink-dangling", "symlink-file"}
 var c10Injects = []FSPlan{{}, {Part: 25}, {Inject: "eacces", At: 1}, {Inject: "enospc", At: 1, Part: 0}, {Inject: "enospc", At: 1, Part: 50}, {Inject: "enospc", At: 1, Part: 100}, {Inject: "eio", At: 1, Part: 30}}
 
 func c10Trees() []*Recipe {
@@ -383,6 +383,13 @@ func (propC10) Check(c *Case) (*Violation, *RunInfo) {
 				}
 			case fired:
 				ri.count("A2_save_under_fs_fault", 1)
+				// a structural fault (the target is a directory, its parent is missing or is a
+				// file) means the target could not even be opened: a Save that reports failure
+				// there has had nothing to write, so whatever was in the directory, the
+				// directory standing in the target's place included, must still be there
+				if a.FSFault && !a.OK && strings.Join(a.FSBefore, "\n") != strings.Join(a.FSAfter, "\n") {
+					fail("C10-A1-failed-save-destroyed-entries", "Save failed because the target cannot be opened (%s), yet the directory changed: before %v, after %v (fs calls: %v)", op.F.Target, a.FSBefore, a.FSAfter, a.FSLog)
+				}
 				// a nil return under a fault is only acceptable if the save genuinely succeeded
 				// (an implementation may recover through a fallback); judged by the content below
 			default:
